@@ -5,6 +5,7 @@ import (
 	"go/constant"
 	"go/token"
 	"go/types"
+	"sort"
 
 	"golang.org/x/tools/go/ssa"
 )
@@ -116,6 +117,7 @@ func (x *Exec) load(l *Loc, st *State) Value {
 		base = v
 	} else {
 		hn, hs := x.heapOf(l.Root)
+		x.guardCheck(l, false, st)
 		base = Select(st.Heap(hn, hs), l.Ptr)
 	}
 	if len(l.Path) == 0 {
@@ -137,6 +139,9 @@ func (x *Exec) load(l *Loc, st *State) Value {
 		}
 	}
 	x.validOnLoad(cur, l.elemType(), st)
+	if l.Kind == "heap" {
+		x.noteGuardedContents(l, cur)
+	}
 	return cur
 }
 
@@ -201,6 +206,7 @@ func (x *Exec) store(l *Loc, v Value, st *State) {
 		base = bt
 	} else {
 		hn, hs = x.heapOf(l.Root)
+		x.guardCheck(l, true, st)
 		x.frameCheck(hn, l.Ptr, st)
 		base = Select(st.Heap(hn, hs), l.Ptr)
 	}
@@ -234,9 +240,145 @@ func (x *Exec) setPath(base Term, t types.Type, path []PathElem, nv Term) Term {
 }
 
 // frameCheck: a write to heap location p must be allowed by the frame.
+// guardCheck: lock discipline of `guarded` types. An access to a guarded field of an object that
+// this call did not allocate needs the object's mutex (exclusively, for a write).
+func (x *Exec) guardCheck(l *Loc, write bool, st *State) {
+	if x.pure || l.Kind != "heap" || len(l.Path) == 0 || l.Path[0].Index != nil {
+		return
+	}
+	named, ok := l.Root.(*types.Named)
+	if !ok || named.Obj().Pkg() == nil {
+		return
+	}
+	g := x.u.eng.cs.Guards[named.Obj().Pkg().Path()+"."+named.Obj().Name()]
+	if g == nil {
+		return
+	}
+	stt := structOf(l.Root)
+	if stt == nil {
+		return
+	}
+	if g.Contents[stt.Field(l.Path[0].Field).Name()] {
+		if x.freshBases[PBase(l.Ptr).S] || x.freshBases[l.Ptr.S] {
+			return
+		}
+		if write {
+			x.obl("guard[assign "+named.Obj().Name()+"."+stt.Field(l.Path[0].Field).Name()+"]", "lock", "the field is assigned by the constructor only (its contents are guarded, the field itself is read without the lock)", st, Ge(PBase(l.Ptr), x.alloc0))
+		}
+		return
+	}
+	if !g.Fields[stt.Field(l.Path[0].Field).Name()] {
+		return
+	}
+	if x.freshBases[PBase(l.Ptr).S] || x.freshBases[l.Ptr.S] {
+		return // under construction: not yet shared
+	}
+	key := "lock:" + (&Loc{Kind: "heap", Ptr: l.Ptr, Root: l.Root, Path: []PathElem{{Field: 0}}}).String()
+	held, ok := st.cells[key].(Term)
+	if !ok {
+		held = IntLit(0)
+	}
+	fname := named.Obj().Name() + "." + stt.Field(l.Path[0].Field).Name()
+	fresh := Ge(PBase(l.Ptr), x.alloc0)
+	if write {
+		x.obl("guard[write "+fname+"]", "lock", "field "+fname+" is written only while "+g.Mutex+" is held exclusively", st, Or(fresh, Eq(held, IntLit(2))))
+	} else {
+		x.obl("guard[read "+fname+"]", "lock", "field "+fname+" is read only while "+g.Mutex+" is held", st, Or(fresh, Ge(held, IntLit(1))))
+	}
+}
+
+// noteGuardedContents remembers that the map just loaded from a guarded-contents field belongs to
+// the object's mutex.
+func (x *Exec) noteGuardedContents(l *Loc, v Term) {
+	if x.pure || len(l.Path) != 1 || l.Path[0].Index != nil {
+		return
+	}
+	named, ok := l.Root.(*types.Named)
+	if !ok || named.Obj().Pkg() == nil {
+		return
+	}
+	g := x.u.eng.cs.Guards[named.Obj().Pkg().Path()+"."+named.Obj().Name()]
+	stt := structOf(l.Root)
+	if g == nil || stt == nil || !g.Contents[stt.Field(l.Path[0].Field).Name()] {
+		return
+	}
+	if x.freshBases[PBase(l.Ptr).S] || x.freshBases[l.Ptr.S] {
+		return
+	}
+	if x.u.guardOrigin == nil {
+		x.u.guardOrigin = map[string]guardOrigin{}
+	}
+	x.u.guardOrigin[v.S] = guardOrigin{key: "lock:" + (&Loc{Kind: "heap", Ptr: l.Ptr, Root: l.Root, Path: []PathElem{{Field: 0}}}).String(), name: named.Obj().Name() + "." + stt.Field(l.Path[0].Field).Name(), mutex: g.Mutex}
+}
+
+type guardOrigin struct {
+	key, name, mutex string
+}
+
+// contentsGuard: an operation on a map that was loaded from a guarded-contents field.
+func (x *Exec) contentsGuard(m Term, write bool, st *State) {
+	if x.pure || x.u.guardOrigin == nil {
+		return
+	}
+	o, ok := x.u.guardOrigin[m.S]
+	if !ok {
+		return
+	}
+	held, ok := st.cells[o.key].(Term)
+	if !ok {
+		held = IntLit(0)
+	}
+	if write {
+		x.obl("guard[update "+o.name+"]", "lock", "the map "+o.name+" is updated only while "+o.mutex+" is held exclusively", st, Eq(held, IntLit(2)))
+	} else {
+		x.obl("guard[lookup "+o.name+"]", "lock", "the map "+o.name+" is read only while "+o.mutex+" is held", st, Ge(held, IntLit(1)))
+	}
+}
+
+// sharedModeCheck: while a mutex is held in shared (read) mode, only memory allocated by this call
+// may be written.
+func (x *Exec) sharedModeCheck(p Term, st *State) {
+	if x.pure || x.freshBases[PBase(p).S] || x.freshBases[p.S] {
+		return
+	}
+	for k := range x.u.lockKeys {
+		held, ok := st.cells[k].(Term)
+		if !ok || held.S == "0" || held.S == "2" {
+			continue
+		}
+		x.obl("guard[shared-mode write]", "lock", "while a mutex is held in shared mode only memory allocated by this call is written", st, Or(Not(Eq(held, IntLit(1))), Ge(PBase(p), x.alloc0)))
+	}
+}
+
+// someExclusiveLock: some mutex is held exclusively in this state.
+func (x *Exec) someExclusiveLock(st *State) Term {
+	var alts []Term
+	var keys []string
+	for k := range x.u.lockKeys {
+		keys = append(keys, k)
+	}
+	sort.Strings(keys)
+	for _, k := range keys {
+		if held, ok := st.cells[k].(Term); ok {
+			alts = append(alts, Eq(held, IntLit(2)))
+		}
+	}
+	if len(alts) == 0 {
+		return TFalse
+	}
+	return Or(alts...)
+}
+
 func (x *Exec) frameCheck(heap string, p Term, st *State) {
 	if x.pure {
 		x.fail("heap write in pure context")
+	}
+	if !x.atomicOp {
+		x.sharedModeCheck(p, st)
+	}
+	if x.u.concurrent && !x.atomicOp && !(x.freshBases[PBase(p).S] || x.freshBases[p.S]) {
+		// concurrent mode: memory that existed before this call is written only under an exclusive lock
+		x.obl("guard[unsynchronised write "+heap+"]", "lock", "memory that existed before the call is written only while a mutex is held exclusively", st, Or(Ge(PBase(p), x.alloc0), x.someExclusiveLock(st)))
 	}
 	if x.frame == nil || x.frame.any {
 		return
@@ -636,6 +778,7 @@ func (x *Exec) lookup(in *ssa.Lookup, st *State) Value {
 	if mt, ok := in.X.Type().Underlying().(*types.Map); ok {
 		m := x.term(x.val(in.X))
 		k := x.term(x.val(in.Index))
+		x.contentsGuard(m, false, st)
 		dom, val, cnt := x.mapParts(m, mt, st)
 		present := Select(dom, k)
 		x.assume(Implies(present, Ge(cnt, IntLit(1))))
@@ -656,6 +799,7 @@ func (x *Exec) lookup(in *ssa.Lookup, st *State) Value {
 }
 
 func (x *Exec) mapUpdate(m Term, mt *types.Map, k, v Term, st *State) {
+	x.contentsGuard(m, true, st)
 	md, mv, mc, ks, vs := mapHeaps(x.u.W, mt)
 	x.obl("safety[nil-map-write]", "safety", "assignment to entry in nil map", st, Not(Eq(m, TNil)))
 	x.frameCheck(md, m, st)
@@ -673,6 +817,7 @@ func (x *Exec) mapUpdate(m Term, mt *types.Map, k, v Term, st *State) {
 }
 
 func (x *Exec) mapDelete(m Term, mt *types.Map, k Term, st *State) {
+	x.contentsGuard(m, true, st)
 	md, _, mc, ks, _ := mapHeaps(x.u.W, mt)
 	hd := st.Heap(md, ArraySort(SPtr, ArraySort(ks, SBool)))
 	hc := st.Heap(mc, ArraySort(SPtr, SInt))
@@ -715,6 +860,7 @@ func (x *Exec) rangeInit(in *ssa.Range, st *State) Value {
 	switch t := in.X.Type().Underlying().(type) {
 	case *types.Map:
 		ks := x.u.W.SortOf(t.Key())
+		x.contentsGuard(x.term(x.val(in.X)), false, st)
 		it := &MapIter{Map: x.term(x.val(in.X)), MapType: t, Visited: ConstArray(ArraySort(ks, SBool), TFalse), N: IntLit(0)}
 		st.cells[in] = it
 		return &Loc{Kind: "cell", Key: in}
